@@ -26,6 +26,13 @@ pub const TEXTS: &[(&str, &str)] = &[
     ("list-nested-ref", "# L\n\n- item [z](2)\n  - [x](1)\n"),
     ("two-sections", "# S\n\n## S1\n\n[x](2)\n\n## S2\n\ntext\n"),
     ("empty", ""),
+    // front-matter that a later version of the note no longer has
+    ("front-matter", "---\nk: v\n---\n\n# F\n\ntext\n"),
+    // one link after a block of every kind (each arm of the index walk has a successor that matters)
+    (
+        "every-kind-then-ref",
+        "# A\n\npara\n\n---\n\n[x](1)\n\n> quote\n\n[y](2)\n\n- item\n\n[x](1)\n\n1. one\n\nand [y](2) inline\n\n```\ncode\n```\n\n[x](1)\n\n## sub\n\n[y](2)\n",
+    ),
 ];
 
 pub const KEYS: &[&str] = &["1", "2", "d/3", "n"];
@@ -100,6 +107,9 @@ fn history_features(ops: &[(String, String, String)], init: &HashMap<String, Str
         }
         if name == "table-then-refs" {
             f.push("update-with-block-after-table".into());
+        }
+        if name == "front-matter" {
+            f.push("front-matter".into());
         }
         cur.insert(k.clone(), text.clone());
         let now = refs_of(&cur);
